@@ -211,6 +211,40 @@ def _rebuild(u):
                      query_string=u.query_string, fragment=u.fragment)
 
 
+class _Forward:
+    """Not a URL: forwards attribute reads to one."""
+
+    def __init__(self, u):
+        object.__setattr__(self, "_u", u)
+
+    def __getattr__(self, name):
+        return getattr(object.__getattribute__(self, "_u"), name)
+
+    def __repr__(self):
+        return "<forwarding proxy>"
+
+
+class _SlotTwin:
+    """Not a URL: carries copies of a URL's slots and of whatever keys it memoises."""
+
+    def __init__(self, u):
+        for n_ in ("_scheme", "_netloc", "_path", "_query", "_fragment"):
+            setattr(self, n_, getattr(u, n_))
+        self._cache = dict(getattr(u, "_cache", {}))
+        for n_ in ("_val", "_cmp_val", "_origin", "raw_path", "scheme", "raw_authority", "raw_query_string", "raw_fragment"):
+            try:
+                setattr(self, n_, getattr(u, n_))
+            except Exception:  # noqa: BLE001
+                pass
+
+    def __repr__(self):
+        return "<slot twin>"
+
+
+class _StrTwin(str):
+    pass
+
+
 NON_URLS = ["http://example.com", b"http://example.com", None, 0, ("http", "example.com", "/", "", ""), SplitResult("http", "example.com", "/", "", ""), object(), 1.5, [], {}]
 
 
@@ -297,7 +331,9 @@ def run(ctx):
         ctx.ev(("triples", min(n, 30)), n=tri)
         ctx.count("triples", tri)
         for label, u in objs[:6]:
-            for x in NON_URLS:
+            # look-alikes made FROM u: a proxy that forwards every attribute (private ones included) to u, an object carrying copies of
+            # u's slots and memoised keys, a str subclass spelling u, a subclass-free duck with the public accessors
+            for x in NON_URLS + [_Forward(u), _SlotTwin(u), _StrTwin(str(u)) if not is_exc(guarded(str, u)) else None]:
                 e = guarded(lambda: u == x)
                 e2 = guarded(lambda: x == u)
                 ne = guarded(lambda: u != x)
